@@ -24,6 +24,7 @@ import ast
 from .. import Undecided
 from ..expr import canon, lin, lin_sub, cmp_form, conj, negate, call_name, unparse, parse_expr
 from ..model import stmt_text
+from ..tt import Table
 
 EXPLANATION = __doc__
 LEVEL_RULE = 'one obligation per (clause, path | guard | statement) of Fragments.insert / tobytes / append / extend'
@@ -141,69 +142,93 @@ def check(ctx, parts=('cursor', 'store', 'index', 'guards', 'atomic', 'tobytes',
             ctx.violation('R8-sorted-index', ins, m.text(), 'insertion index %s is not bisect_right(begins, position): the begins list loses its order' % canon(idx), m.lineno, clause='3')
 
     # ---------------------------------------------------------- (4) collision guards
-    pred_tests, succ_tests = [], []
-    for p in (bad_paths if 'guards' in parts else []):
-        exc = p.end[1]
-        if exc is not None and call_name(exc) == 'AssertionError':
-            continue
-        if not p.guards:
-            ctx.violation('R8-collision-guards', ins, 'unconditional raise', 'insert always raises', ins.node.lineno, clause='4')
-            continue
-        g, pol = p.guards[-1]
-        test = g if pol else negate(g)
-        lits = [cmp_form(c) for c in conj(test)]
-        txt = canon(test)
-        if any(l is None for l in lits):
-            ctx.undecided('R8-collision-guards', ins, 'raise under %s' % txt, 'the condition of this raise is not a conjunction of linear comparisons', ins.node.lineno, clause='4')
-            continue
-        forms = [(f, op) for f, op in lits]
-        if (pred_form, '<') in forms:
-            pred_tests.append(g)
-            rest = [x for x in forms if x != (pred_form, '<')]
-            extra = [x for x in rest if x != (pred_lo, '<=')]
-            if extra:
-                ctx.violation('R8-collision-guards', ins, 'predecessor guard %s' % txt, 'extra condition on the predecessor overlap test: some overlaps are not detected', ins.node.lineno, clause='4')
-            else:
-                ctx.holds('R8-collision-guards', ins, 'predecessor guard %s' % txt, 'exact: position < b1 + len(chunk[b1]) with b1 = begins[bisect_right - 1]', ins.node.lineno, clause='4')
-        elif any(b2 in f for f, _ in forms):
-            succ_tests.append(g)
-            if (succ_form, '<') not in forms:
-                ctx.violation('R8-collision-guards', ins, 'successor guard %s' % txt, 'the successor test is not b2 < position + len(string) with b2 = begins[bisect_right] (off-by-one or wrong neighbour)', ins.node.lineno, clause='4')
-                continue
-            rest = [x for x in forms if x != (succ_form, '<')]
-            has_nonempty = any(nonempty_succ in f for f, _ in rest) or any(nonempty_succ in t for t in p.guard_texts())
-            if not has_nonempty:
-                ctx.violation('R8-collision-guards', ins, 'successor guard %s' % txt,
-                              'the successor overlap test does not consult the length of the successor chunk: an empty chunk (what Em().pack appends) makes a later non-overlapping insert raise', ins.node.lineno, clause='4')
-            else:
-                ctx.holds('R8-collision-guards', ins, 'successor guard %s' % txt, 'exact: b2 < position + len(string) and the successor is non-empty', ins.node.lineno, clause='4')
-        elif any(any(b1 in k for k in f if k != 1) for f, _ in forms):
-            ctx.violation('R8-collision-guards', ins, 'predecessor guard %s' % txt, 'the predecessor test is not position < b1 + len(chunk[b1]) (off-by-one, wrong neighbour or wrong comparison)', ins.node.lineno, clause='4')
-            pred_tests.append(g)
-        else:
-            ctx.undecided('R8-collision-guards', ins, 'raise under %s' % txt, 'a raise whose condition is not one of the two neighbour tests (a non-empty insert must raise exactly on overlap)', ins.node.lineno, clause='4')
-    if not pred_tests and 'guards' in parts:
-        ctx.violation('R8-collision-guards', ins, 'no predecessor overlap test', 'insert never raises for an overlap with the chunk that begins at or before position', ins.node.lineno, clause='4')
-    if not succ_tests and 'guards' in parts:
-        ctx.violation('R8-collision-guards', ins, 'no successor overlap test', 'insert never raises for an overlap with the chunk that begins after position', ins.node.lineno, clause='4')
-    # every non-raising path over a non-empty map passed both tests
-    for p in (ok_paths if 'guards' in parts else []):
-        texts = p.guard_texts()
-        empty_map = ('not %s' % CM) in texts or ('(len(%s) == 0)' % CM) in texts or ('not %s' % BG) in texts
-        if empty_map:
-            ctx.holds('R8-guards-dominate-store', ins, 'path [%s]' % '; '.join(texts), 'empty map: nothing to collide with', ins.node.lineno, clause='4')
-            continue
-        neg = {canon(g) for g, pol in p.guards if not pol}
-        missing = []
-        if pred_tests and not any(canon(t) in neg for t in pred_tests):
-            missing.append('predecessor')
-        no_succ = any(cmp_form(g if pol else negate(g)) is not None and 'len(%s)' % BG in str(cmp_form(g if pol else negate(g))[0]) and not pol for g, pol in p.guards)
-        if succ_tests and not any(canon(t) in neg for t in succ_tests) and not no_succ:
-            missing.append('successor')
-        if missing:
-            ctx.violation('R8-guards-dominate-store', ins, 'path [%s]' % '; '.join(texts), 'a path stores the chunk without passing the %s overlap test' % ' and '.join(missing), ins.node.lineno, clause='4')
-        else:
-            ctx.holds('R8-guards-dominate-store', ins, 'path [%s]' % '; '.join(texts), 'both neighbour tests were passed (or there is no successor)', ins.node.lineno, clause='4')
+    # insert looks at its arguments only through comparisons of a handful of quantities: decide
+    # the raise / store outcome in every consistent situation (bistat/tt.py)
+    if 'guards' in parts:
+        LB = 'len(%s)' % BG
+        LM = 'len(%s)' % CM
+        T = Table()
+        T.quantity('chunks', {LM: 1}, thresholds=(1,))
+        T.quantity('chunks', {LB: 1})
+        T.truthy(CM, 'chunks')
+        T.truthy(BG, 'chunks')
+        nonempty = lambda s: s.ge('chunks', 1)
+        T.quantity('slot', {I: 1}, thresholds=(1,))                                    # slot = bisect_right(begins, position)
+        T.quantity('slot - chunks', {I: 1, LB: -1}, thresholds=(0,))
+        has_pred = lambda s: s.ge('slot', 1)
+        has_succ = lambda s: s.lt('slot - chunks', 0)
+        T.quantity('b1 - position', pred_lo, defined=nonempty, thresholds=(1,))          # b1 = begins[slot - 1]
+        T.quantity('position - end of b1', pred_form, defined=nonempty, thresholds=(0,))
+        T.quantity('b2 - position - len(string)', succ_form, defined=has_succ, thresholds=(0,))   # b2 = begins[slot]
+        T.quantity('len(chunk b2)', {nonempty_succ: 1}, defined=has_succ, thresholds=(1,))
+        T.truthy('%s[%s]' % (CM, b2), 'len(chunk b2)')
+        T.quantity('len(string)', {L: 1}, thresholds=(1,))
+        T.truthy(L, 'len(string)')
+        T.truthy(STR, 'len(string)')
+        live = [p for p in paths if not (p.raises() and p.end[1] is not None and call_name(p.end[1]) == 'AssertionError')]
+        T.scan(live)
+
+        def consistent(s):
+            if not nonempty(s):
+                return not has_pred(s) and not has_succ(s)
+            if not (has_pred(s) or has_succ(s)):
+                return False
+            # bisect: begins[slot - 1] <= position when it exists; otherwise begins[-1] is the last
+            # begin and every begin is after position
+            if s.lt('b1 - position', 1) != has_pred(s):
+                return False
+            # b2 = begins[slot] > position: an empty string cannot reach it
+            if has_succ(s) and s.lt('len(string)', 1) and s.lt('b2 - position - len(string)', 0):
+                return False
+            return True
+
+        def hits_pred(s):
+            return nonempty(s) and s.lt('b1 - position', 1) and s.lt('position - end of b1', 0)
+
+        def hits_succ(s, strict=True):
+            return has_succ(s) and s.lt('b2 - position - len(string)', 0) and (not strict or s.ge('len(chunk b2)', 1))
+
+        n_rows = 0
+        reported = set()
+        try:
+            for sit in T.situations(consistent):
+                n_rows += 1
+                tk = T.taken(live, sit)
+                outcomes = {o for _, o in tk}
+                label = 'situation [%s]' % sit.show()
+                if len(outcomes) != 1:
+                    ctx.undecided('R8-collision-guards', ins, label, '%d paths are enabled (%s): the path summaries do not partition this situation' % (len(tk), sorted(outcomes)), ins.node.lineno, clause='4')
+                    continue
+                out = outcomes.pop()
+                want = 'raise' if (hits_pred(sit) or hits_succ(sit)) else 'return'
+                if out == want:
+                    ctx.holds('R8-collision-guards', ins, label + ' -> ' + out, 'raises exactly on overlap with a neighbour', ins.node.lineno, clause='4')
+                    continue
+                key = None
+                if out == 'crash':
+                    kind = 'looks at a neighbour chunk that does not exist in this situation (IndexError instead of %s)' % want
+                elif out == 'raise':
+                    if hits_succ(sit, strict=False):
+                        # the only thing wrong is that the successor is empty
+                        if 'F5' in reported:
+                            continue
+                        reported.add('F5')
+                        label = 'successor test: raises when b2 < position + len(string) although the chunk at b2 is empty'
+                        kind = 'the successor overlap test does not consult the length of the successor chunk: an empty chunk (what Em().pack appends) makes a later non-overlapping insert raise'
+                        key = 'Fragments.insert: successor overlap test ignores that the successor chunk may be empty'
+                    else:
+                        kind = 'raises a collision although the new chunk overlaps no neighbour'
+                else:
+                    kind = 'stores the chunk although it overlaps %s' % ('the chunk that begins at or before position' if hits_pred(sit) else 'the chunk that begins after position')
+                if key is None:
+                    # one report per kind of mistake, with the first situation as the witness
+                    if kind in reported:
+                        continue
+                    reported.add(kind)
+                ctx.violation('R8-collision-guards', ins, label + (' -> ' + out if key is None else ''), kind, ins.node.lineno, clause='4', key=key)
+        except Undecided as e:
+            ctx.undecided('R8-collision-guards', ins, 'guards of Fragments.insert', str(e), ins.node.lineno, clause='4')
+        ctx.unit('decision_table_rows', n_rows)
 
     # ---------------------------------------------------------- (7) a raise leaves the buffer untouched
     if 'atomic' in parts:
@@ -229,18 +254,42 @@ def check(ctx, parts=('cursor', 'store', 'index', 'guards', 'atomic', 'tobytes',
         if fi is None:
             ctx.undecided('R8-append-at-cursor', (fr.file, 'Fragments.' + name), name, 'method not found')
             continue
-        calls = [n for n in ast.walk(fi.node) if isinstance(n, ast.Call) and isinstance(n.func, ast.Attribute) and n.func.attr == 'insert'
-                 and isinstance(n.func.value, ast.Name) and n.func.value.id == 'self']
-        if len(calls) != 1:
-            ctx.undecided('R8-append-at-cursor', fi, name, 'expected exactly one self.insert(...) call', fi.node.lineno)
+        # follow one level of delegation (extend -> append -> insert)
+        w1 = repo.walker(inline_depth=2, max_paths=ctx.max_paths, keep={'insert'})
+        calls = []
+        npaths = 0
+        for p in w1.paths(fi.node, cls=fr):
+            if p.raises():
+                continue
+            npaths += 1
+            here = [e for e in p.all_effects() if e.kind == 'call' and isinstance(e.call.func, ast.Attribute) and e.call.func.attr == 'insert'
+                    and canon(e.call.func.value) == 'self']
+            loops = [e for e in p.effects if e.kind == 'loop']
+            if name == 'extend' and loops:
+                # every pass of the loop inserts
+                for bp in loops[0].sub['body']:
+                    if not bp.raises() and not [e for e in bp.all_effects() if e.kind == 'call' and isinstance(e.call.func, ast.Attribute) and e.call.func.attr == 'insert']:
+                        ctx.violation('R8-append-at-cursor', fi, 'extend: loop pass [%s]' % '; '.join(bp.guard_texts())[:120], 'an element of the iterable is not inserted', fi.node.lineno, clause='6')
+            elif not here:
+                ctx.violation('R8-append-at-cursor', fi, '%s: path [%s]' % (name, '; '.join(p.guard_texts())[:120]), 'a path returns without inserting the chunk', fi.node.lineno, clause='6')
+            calls.extend(here)
+        if not calls:
+            ctx.undecided('R8-append-at-cursor', fi, name, 'no self.insert(...) reached from %s' % name, fi.node.lineno)
             continue
-        c = calls[0]
-        if len(c.args) >= 2 and canon(c.args[0]) == 'self.current_offset':
-            ctx.holds('R8-append-at-cursor', fi, stmt_text(c), 'inserts at the cursor', c.lineno, clause='6')
-        else:
-            ctx.violation('R8-append-at-cursor', fi, stmt_text(c), 'does not insert at the current cursor', c.lineno, clause='6')
+        seen_txt = set()
+        for e in calls:
+            c = e.call
+            t = canon(c)
+            if t in seen_txt:
+                continue
+            seen_txt.add(t)
+            if len(c.args) >= 2 and canon(c.args[0]) == 'self.current_offset':
+                ctx.holds('R8-append-at-cursor', fi, '%s: %s' % (name, t), 'inserts at the cursor', e.lineno, clause='6')
+            else:
+                ctx.violation('R8-append-at-cursor', fi, '%s: %s' % (name, t), 'does not insert at the current cursor', e.lineno, clause='6')
     if 'fill' not in parts:
-        ctx.floor('paths of Fragments.insert', len(paths), 4)
+        if 'guards' in parts:
+            ctx.floor('decision table rows of Fragments.insert', ctx.units.get('decision_table_rows', 0), 30)
         return
     # default fill
     init_fill = None
@@ -256,90 +305,118 @@ def check(ctx, parts=('cursor', 'store', 'index', 'guards', 'atomic', 'tobytes',
         ctx.holds('R8-fill-default', init, 'fill defaults to %s' % canon(init_fill), "holes are rendered as b'.'", init.node.lineno, clause='5')
     else:
         ctx.violation('R8-fill-default', init, 'fill defaults to %s' % (canon(init_fill) if init_fill is not None else '?'), "the default fill is not b'.'", init.node.lineno, clause='5')
-    ctx.floor('paths of Fragments.insert', len(paths), 4)
+    if 'guards' in parts:
+        ctx.floor('decision table rows of Fragments.insert', ctx.units.get('decision_table_rows', 0), 30)
     ctx.trust(*ASSUMPTIONS)
 
 
 def check_tobytes(ctx, repo, fr, tob, CM):
+    """the rendering emits, for the chunks in position order, fill * (offset - end of the previous
+    chunk) and then the chunk, starting at 0, and joins the emitted parts in that order.  The parts
+    may be collected in a list (append) or produced by a generator method (yield)."""
     rule = 'R8-tobytes'
     w = repo.walker()
     paths = w.paths(tob.node, cls=fr)
-    # the rendering is a function of the current chunks only: no state kept on the buffer, and
-    # every returning path walks the chunks
     for pp in paths:
         for e in pp.all_effects():
             if (e.kind == 'store_attr' and canon(e.obj) == 'self') or (e.kind == 'setattr' and canon(e.obj) == 'self') or \
                     (e.kind == 'store_sub' and canon(e.obj).startswith('self.')):
                 ctx.violation(rule, tob, 'tobytes: %s' % e.text()[:100], 'the rendering keeps state on the buffer (memo): a later insert that does not change what the memo is keyed on returns stale bytes', e.lineno, clause='5')
-    full = [pp for pp in paths if not pp.raises() and any(e.kind == 'loop' for e in pp.effects)]
-    short = [pp for pp in paths if not pp.raises() and not any(e.kind == 'loop' for e in pp.effects)]
+    live = [pp for pp in paths if not pp.raises()]
+    # where are the parts produced?  a generator method consumed by join, or this function
+    producer, emit_kind, prod_paths = tob, 'append', None
+    if len(live) == 1 and not any(e.kind == 'loop' for e in live[0].effects):
+        ret = live[0].ret()
+        if isinstance(ret, ast.Call) and isinstance(ret.func, ast.Attribute) and ret.func.attr == 'join' and len(ret.args) == 1:
+            arg = ret.args[0]
+            if isinstance(arg, ast.Call) and isinstance(arg.func, ast.Attribute) and canon(arg.func.value) == 'self' and not arg.args and not arg.keywords:
+                g = repo.method(fr, arg.func.attr)
+                if g is not None and any(isinstance(n, (ast.Yield, ast.YieldFrom)) for n in ast.walk(g.node)):
+                    if not (isinstance(ret.func.value, ast.Constant) and ret.func.value.value == b''):
+                        ctx.violation(rule, tob, 'return %s' % canon(ret), "the parts are not joined with b''", tob.node.lineno, clause='5')
+                    producer, emit_kind = g, 'yield'
+                    prod_paths = [pp for pp in repo.walker().paths(g.node, cls=fr) if not pp.raises()]
+                    for pp in prod_paths:
+                        for e in pp.all_effects():
+                            if (e.kind in ('store_attr', 'setattr') and canon(e.obj) == 'self') or (e.kind == 'store_sub' and canon(e.obj).startswith('self.')):
+                                ctx.violation(rule, g, '%s: %s' % (g.qual, e.text()[:100]), 'the rendering keeps state on the buffer', e.lineno, clause='5')
+    if prod_paths is None:
+        prod_paths = live
+    full = [pp for pp in prod_paths if any(e.kind == 'loop' for e in pp.effects)]
+    short = [pp for pp in prod_paths if not any(e.kind == 'loop' for e in pp.effects)]
     for pp in short:
-        ctx.violation(rule, tob, 'tobytes path [%s] returns %s' % ('; '.join(pp.guard_texts())[:120], canon(pp.ret())[:60] if pp.ret() is not None else None),
-                      'a path returns bytes without walking the stored chunks', tob.node.lineno, clause='5')
+        ctx.violation(rule, producer, 'tobytes path [%s] returns %s' % ('; '.join(pp.guard_texts())[:120], canon(pp.ret())[:60] if pp.ret() is not None else None),
+                      'a path returns bytes without walking the stored chunks', producer.node.lineno, clause='5')
     if len(full) != 1:
         if not short:
-            ctx.undecided(rule, tob, 'Fragments.tobytes', 'expected a single rendering path, found %d' % len(full), tob.node.lineno)
+            ctx.undecided(rule, producer, 'Fragments.tobytes', 'expected a single rendering path, found %d' % len(full), producer.node.lineno)
         return
     p = full[0]
     loops = [e for e in p.effects if e.kind == 'loop']
     if len(loops) != 1 or loops[0].sub['kind'] != 'for':
-        ctx.undecided(rule, tob, 'Fragments.tobytes', 'expected one for loop over the chunks', tob.node.lineno)
+        ctx.undecided(rule, producer, 'Fragments.tobytes', 'expected one for loop over the chunks', producer.node.lineno)
         return
     lp = loops[0]
     it = canon(lp.sub['iter'])
-    if it != 'sorted(%s.items())' % CM:
-        ctx.violation(rule, tob, 'for ... in %s' % it, 'chunks are not walked in position order (sorted(map.items()))', lp.lineno, clause='5')
-    else:
-        ctx.holds(rule, tob, 'for ... in %s' % it, 'chunks walked in position order', lp.lineno, clause='5')
     n = lp.sub['phi']
     item = '<item of %d>' % n
-    K, V = '%s[0]' % item, '%s[1]' % item
+    if it == 'sorted(%s.items())' % CM:
+        K, V = '%s[0]' % item, '%s[1]' % item
+    elif it in ('sorted(%s)' % CM, 'sorted(%s.keys())' % CM):
+        K, V = item, '%s[%s]' % (CM, item)
+    else:
+        ctx.violation(rule, producer, 'for ... in %s' % it, 'chunks are not walked in position order (sorted items / keys of the chunk map)', lp.lineno, clause='5')
+        return
+    ctx.holds(rule, producer, 'for ... in %s' % it, 'chunks walked in position order', lp.lineno, clause='5')
     body = lp.sub['body']
     if len(body) != 1 or body[0].end[0] != 'fall':
-        ctx.undecided(rule, tob, 'loop body', 'loop body has branches or exits early', lp.lineno)
+        ctx.undecided(rule, producer, 'loop body', 'loop body has branches or exits early', lp.lineno)
         return
     b = body[0]
-    carried = [c for c in lp.sub['carried'] if canon(b.env.get(c, ast.Name(id=c))) not in (K, V)]
-    apps = [e for e in b.effects if e.kind == 'call' and isinstance(e.call.func, ast.Attribute) and e.call.func.attr == 'append' and len(e.call.args) == 1]
+    if emit_kind == 'yield':
+        parts_ = [e.value for e in b.effects if e.kind == 'yield']
+        emits = [e for e in b.effects if e.kind == 'yield']
+    else:
+        emits = [e for e in b.effects if e.kind == 'call' and isinstance(e.call.func, ast.Attribute) and e.call.func.attr == 'append' and len(e.call.args) == 1]
+        parts_ = [e.call.args[0] for e in emits]
     begin_var = None
     for c in lp.sub['carried']:
         v = b.env.get(c)
         if v is not None and lin(v) == {K: 1, 'len(%s)' % V: 1}:
             begin_var = c
+    desc = '; '.join(e.text() if e.kind != 'yield' else 'yield %s' % canon(e.value) for e in b.effects)
     if begin_var is None:
-        ctx.violation(rule, tob, 'loop body: %s' % '; '.join(e.text() for e in b.effects), 'no variable is advanced to offset + len(chunk) after each chunk', lp.lineno, clause='5')
+        ctx.violation(rule, producer, 'loop body: %s' % desc, 'no variable is advanced to offset + len(chunk) after each chunk', lp.lineno, clause='5')
         return
     B = '%s@phi%d' % (begin_var, n)
     ok = True
-    if len(apps) != 2 or canon(apps[0].call.func.value) != canon(apps[1].call.func.value):
-        ctx.violation(rule, tob, 'loop body: %s' % '; '.join(e.text() for e in b.effects), 'expected two appends per chunk (fill, then chunk)', lp.lineno, clause='5')
+    if len(parts_) != 2 or (emit_kind == 'append' and canon(emits[0].call.func.value) != canon(emits[1].call.func.value)):
+        ctx.violation(rule, producer, 'loop body: %s' % desc, 'expected two parts per chunk (fill, then chunk)', lp.lineno, clause='5')
         return
-    gap, chunk = apps[0].call.args[0], apps[1].call.args[0]
+    gap, chunk = parts_
     good_gap = False
     if isinstance(gap, ast.BinOp) and isinstance(gap.op, ast.Mult):
         for f, m in ((gap.left, gap.right), (gap.right, gap.left)):
             if canon(f) == 'self.fill' and lin(m) == {K: 1, B: -1}:
                 good_gap = True
     if not good_gap:
-        ok = ctx.violation(rule, tob, apps[0].text(), 'the hole before a chunk is not rendered as fill * (offset - begin)', apps[0].lineno, clause='5')
+        ok = ctx.violation(rule, producer, 'hole: %s' % canon(gap), 'the hole before a chunk is not rendered as fill * (offset - begin)', emits[0].lineno, clause='5')
     if canon(chunk) != V:
-        ok = ctx.violation(rule, tob, apps[1].text(), 'the chunk appended is not the stored chunk', apps[1].lineno, clause='5')
+        ok = ctx.violation(rule, producer, 'chunk: %s' % canon(chunk), 'the part emitted after the hole is not the stored chunk', emits[1].lineno, clause='5')
     # initial value of begin
     init_v = None
-    for s in tob.node.body:
-        if isinstance(s, ast.Assign) and isinstance(s.targets[0], ast.Name) and s.targets[0].id == begin_var:
-            init_v = s.value
+    for s_ in producer.node.body:
+        if isinstance(s_, ast.Assign) and isinstance(s_.targets[0], ast.Name) and s_.targets[0].id == begin_var:
+            init_v = s_.value
             break
-    if not (isinstance(init_v, ast.Constant) and init_v.value == 0):
-        ok = ctx.violation(rule, tob, '%s starts at %s' % (begin_var, canon(init_v) if init_v is not None else '?'), 'the walk does not start at position 0', tob.node.lineno, clause='5')
-    acc = canon(apps[0].call.func.value)
-    ret = p.ret()
-    if ret is None or not (isinstance(ret, ast.Call) and isinstance(ret.func, ast.Attribute) and ret.func.attr == 'join' and len(ret.args) == 1
-                           and canon(ret.args[0]) + 'out' == acc.replace('@phi%d' % n, '@phi%dout' % n) + ('' if '@phi' in acc else 'out')):
-        # accept join of the accumulator list (it is not loop-carried as a name: append mutates it)
+    if not (isinstance(init_v, ast.Constant) and init_v.value == 0 and init_v.value is not False):
+        ok = ctx.violation(rule, producer, '%s starts at %s' % (begin_var, canon(init_v) if init_v is not None else '?'), 'the walk does not start at position 0', producer.node.lineno, clause='5')
+    if emit_kind == 'append':
+        acc = canon(emits[0].call.func.value)
+        ret = p.ret()
         if not (ret is not None and isinstance(ret, ast.Call) and isinstance(ret.func, ast.Attribute) and ret.func.attr == 'join'
                 and isinstance(ret.func.value, ast.Constant) and ret.func.value.value == b'' and len(ret.args) == 1 and canon(ret.args[0]) == acc):
-            ok = ctx.violation(rule, tob, 'return %s' % (canon(ret) if ret is not None else None), "the result is not b''.join(parts) of the parts in walk order", tob.node.lineno, clause='5')
+            ok = ctx.violation(rule, producer, 'return %s' % (canon(ret) if ret is not None else None), "the result is not b''.join(parts) of the parts in walk order", producer.node.lineno, clause='5')
     if ok:
-        ctx.holds(rule, tob, 'per chunk: %s; %s; %s := %s' % (apps[0].text(), apps[1].text(), begin_var, canon(b.env[begin_var])),
+        ctx.holds(rule, producer, 'per chunk: %s; %s := %s' % (desc[:160], begin_var, canon(b.env[begin_var])),
                   'fill*(offset-begin), chunk, begin := offset+len(chunk), joined in order from 0', lp.lineno, clause='5')
